@@ -261,6 +261,25 @@ HDR_BLOCK = {
 }
 
 
+def tree_rex_atoms(t):
+    """the (operator, argument) pairs of the regex leaves of a tree"""
+    if t[0] == "R": return [(t[1], t[2])]
+    if t[0] == "N": return tree_rex_atoms(t[1])
+    if t[0] in "AO": return [p for x in t[1] for p in tree_rex_atoms(x)]
+    return []
+
+
+def bad_pairs(t):
+    """the `compiles` answers the model is given for a rendered tree: the (operator:argument) pairs the REAL re.compile
+    refuses (bytes or str pattern and flags as the operator's class compiles it)"""
+    return sorted({"%s:%s" % (tx(c), tx(a)) for c, a in tree_rex_atoms(t) if not compiles(c, a)})
+
+
+# regex arguments that do not compile - for every operator, only as a bytes pattern, only as a str pattern
+BAD_ARGS = ["(", "[a", "*x", "(?P<n>a)(?P<n>b)", "\\", ")", "a{2,1}", "(?<=a+)b", "a)b", "[z-a]", "(?P<1>x)", "x**", "\\u1234", "\\N{BULLET}",
+            "(?L)a", "(?u)a", "\\8", "(?i"]
+
+
 def has_hdr_atom(t):
     if t[0] == "R": return t[1] in HDR_CODES
     if t[0] == "N": return has_hdr_atom(t[1])
@@ -569,12 +588,16 @@ class Check(PropertyCheck):
                   "which part of a flow every operator reads and with which flags (Model/C42_Leaf.lean `leafReads` / `unaryV` / `intV` "
                   "over an abstract flow view, transcribed from the `__call__` methods, regex engine and content decoder as "
                   "parameters): rex_flags_pinned (IGNORECASE for every regex operator, MULTILINE exactly ~h ~hq ~hs ~meta ~comment, "
-                  "DOTALL exactly ~b ~bq ~bs, bytes/str pattern - pinned against tables regenerated from the classes), doc_eval and "
+                  "DOTALL exactly ~b ~bq ~bs, bytes/str pattern - pinned against tables regenerated from the classes), "
                   "parse_render_documented (a documented rendering is accepted and its verdict is the table's reading of the tree), "
                   "only_http / only_gating (the @only decorators), both_sides_split (~b = ~bq or ~bs, ~h = ~hq or ~hs, ~t = ~tq or "
                   "~ts on every flow), body_ops_http (on HTTP flows the body operators are the `bodyLeaf` over request/response), unary_table (~q = not ~s on HTTP/DNS, ~replay = ~replayq or ~replays, ~all); the fuel of the "
                   "parser model is immaterial: parse_fuel_independent / parseStruct_any_fuel (any fuel larger than the text gives "
-                  "the same parse), parse_consumes (every parser returns a suffix no longer than its input). "
+                  "the same parse), parse_consumes (every parser returns a suffix no longer than its input). CLAUSE MAP ONLY, not counted "
+                  "as results (definitional: they hold by rfl / one unfolding and say what the definitions are; their content is the tie "
+                  "of those definitions): doc_eval (what docSem is; tie: `lv`), the verdict conjunct of parse_render (the content is "
+                  "parse_render_exact), body_searched (what `searched` is; tie: `bd`), eval_total (true by typing; the real-code side is "
+                  "the oracle clause `raised`). "
                   "The model transcribes the pyparsing grammar of flowfilter._make (MatchFirst order of the operator tables, "
                   "WordEnd(alphanums), CharsNotIn words, QuotedString unescaping as pyparsing 3.3.2 really does it, "
                   "infix_notation([!,&,|]) inside OneOrMore, groups holding a whole expression, tabs kept); the operator tables are "
@@ -590,9 +613,15 @@ class Check(PropertyCheck):
                   "predicts, from the raw bytes, the header and the independent decoder's outcome, what get_content(strict=False) returns; "
                   "and for every pool flow the model is given only the flow's fields (`view` cases) and PREDICTS which byte strings "
                   "every operator searches and with which flags - the verdicts formed from that with CPython's re must equal those of "
-                  "the real leaf objects for every operator x ~100 probe regexes, every unary operator and ~c.")
+                  "the real leaf objects for every operator x ~100 probe regexes, every unary operator and ~c. The model of flowfilter.parse "
+                  "ITSELF (`parse compiles`, not only the structural parser) is run by the driver op `pc` for every rendering, with "
+                  "`compiles` answered by the real re.compile per (operator, argument) of the rendered tree, and `uncomp` cases feed "
+                  "renderings with ONE non-compiling argument (syntax errors; str-only escapes under bytes operators and bytes-only "
+                  "flags under str operators) to the real parser: it must raise ValueError exactly when the model's argsOk is false "
+                  "(parse_render_uncompilable / parse_render_exact on both sides of the boundary).")
     level_note = ("still assumed / outside the proofs: the regex engine is a parameter (`compiles`, per-leaf verdicts `Sem`): the "
-                  "theorems hold for every engine, and the generator only renders compiling regexes; the content decoder is a parameter "
+                  "theorems hold for every engine; the `render` cases only use compiling regexes, the `uncomp` cases put one non-compiling "
+                  "argument into a documented rendering, and `compiles` of the model is answered by the real re.compile (op `pc`); the content decoder is a parameter "
                   "too; which part of a flow each operator reads is now a Lean transcription tied on the whole pool (the extraction of "
                   "the view fields from the real flow objects - bytes(headers), pretty_url, str(dns message), ... - is plain field "
                   "access in the harness and is trusted); the hand-written Python reference stays as the independent oracle (one "
@@ -612,7 +641,9 @@ class Check(PropertyCheck):
             "tree of depth <=2 over 5 atoms (one per leaf kind) in canonical and random layout; first of all one `view` case per pool flow (every leaf of the table, model-predicted vs real), one `body` case per HTTP message of the pool (what the body operators search) and the body operators "
             "alone and under every connective with needles that occur only in the bytes as received / only in the decoded bytes / "
             "nowhere, evaluated on the whole pool (Content-Encoding unknown, known-but-wrong, several codings, identity, empty, "
-            "correct gzip/deflate/br/zstd, streamed; on the request, the response, both); then, for every regex operator, pairs of regexes that differ only in the case of an escape class "
+            "correct gzip/deflate/br/zstd, streamed; on the request, the response, both); `uncomp` cases: each of 18 regex arguments "
+            "that do not compile (or compile only as a str / only as a bytes pattern) under a str operator, two bytes operators, "
+            "~comment, and every operator once, alone and under !, &, |, plus 3% of the random stream; then, for every regex operator, pairs of regexes that differ only in the case of an escape class "
             "(\\d/\\D, \\w/\\W, \\s/\\S, \\b/\\B, alone and inside longer regexes) as SEQUENCE cases (both orders, parsed and "
             "evaluated one after the other in one process) and inside one tree, plus ~4% random sequences later - the verdict "
             "must not depend on what was parsed before; 15% mutated renderings, raw token "
@@ -699,6 +730,14 @@ class Check(PropertyCheck):
             if isinstance(f, http.HTTPFlow):
                 yield {"kind": "body", "flow": i, "side": "request"}
                 if f.response: yield {"kind": "body", "flow": i, "side": "response"}
+        # every non-compiling argument under a str operator, a bytes operator and as a naked regex; then every operator once
+        for b in BAD_ARGS:
+            for code in ("u", "b", "comment", "h"):
+                c = self.uncomp_case(rng, code, b)
+                if c: yield c
+        for code in REX:
+            c = self.uncomp_case(rng, code)
+            if c: yield c
         for c in self.body_cases(rng, tier): yield c
         for c in self.pair_cases(rng, 3 if tier == "quick" else len(CASE_PAIRS)): yield c
         # pyparsing needs ~10 ms for an expression without parentheses, ~100 ms with one group, 0.3-1 s with two levels
@@ -707,6 +746,10 @@ class Check(PropertyCheck):
         while True:
             r = rng.random()
             gb = rng.weighted(GROUPS)
+            if rng.chance(0.03):
+                c = self.uncomp_case(rng)
+                if c: yield c
+                continue
             if rng.chance(0.04):
                 c = self._seq(rng, rng.pick(REX), rng.pick(CASE_PAIRS), rng.randint(2, 4))
                 if c: yield c
@@ -780,6 +823,24 @@ class Check(PropertyCheck):
                     c = self._case(t, rng, groups=(0, 0), p_red=0.0)
                     if c: yield c
 
+    def uncomp_case(self, rng, code=None, bad=None):
+        """a documented rendering of a tree in which ONE regex argument does not compile for its operator (syntax errors,
+        and arguments that are valid only as a str pattern / only as a bytes pattern) - or, when `bad` happens to compile for
+        that operator, a rendering that must be accepted"""
+        code = code or rng.pick(REX + [BARE])
+        bad = bad if bad is not None else rng.pick(BAD_ARGS)
+        leaf = ["R", code, bad]
+        form = rng.randint(0, 4)
+        other = gen_atom(rng)
+        t = [leaf, ["N", leaf], ["A", [other, leaf]], ["O", [leaf, other]], ["A", [["N", other], ["O", [leaf, ["U", "q"]]]]]][form]
+        r = Renderer(rng, 1, p_redundant=0.0, max_count=1)
+        for _ in range(4):
+            try:
+                text, toks, trail = r.render(t)
+                return {"kind": "uncomp", "tree": t, "s_hex": tx(text), "conc": " ".join(toks), "trail_hex": tx(trail)}
+            except Skip: pass
+        return None
+
     def pair_cases(self, rng, per_op):
         """every regex operator with `per_op` of the case-differing pairs: the two spellings one after the other in both
         orders (sequence cases), and both in one tree in both orders"""
@@ -835,7 +896,7 @@ class Check(PropertyCheck):
         raw cases: one character dropped"""
         from common.prng import Rng
         rng = Rng(7)
-        if case.get("kind") in ("body", "view"):
+        if case.get("kind") in ("body", "view", "uncomp"):
             return
         if case.get("kind") == "seq":
             return      # not shrunk: a shorter sequence would be judged in a different history of the process
@@ -906,7 +967,7 @@ class Check(PropertyCheck):
         if items is None: return self._mobs_one(case, replies)
         out, k = [], 0
         for it in items:
-            n = 1 if it["kind"] in ("body", "view") else 1 + (1 if it.get("conc") else 0) + (1 if it["kind"] == "render" else 0)
+            n = 1 if it["kind"] in ("body", "view") else 1 + (1 if it.get("conc") else 0) + (2 if it["kind"] == "render" else 1 if it["kind"] == "uncomp" else 0)
             out.append(self._mobs_one(it, replies[k:k + n])); k += n
         return out
 
@@ -1074,6 +1135,19 @@ class Check(PropertyCheck):
             want = "none" if want is None else (want.hex() or "-")
             return [] if obs["searched"] == want else ["body: %s of pool flow #%d is searched as %s, documented %s"
                                                       % (case["side"], case["flow"], obs["searched"][:60], want[:60])]
+        if case["kind"] == "uncomp":
+            # parse() "If the filter syntax is invalid, ValueError is raised": a documented rendering is accepted exactly
+            # when every regex argument compiles (`_Rex.__init__` -> ValueError -> parse raises) - Lean: parse_render_exact /
+            # parse_render_uncompilable
+            bad = [(c, a) for c, a in tree_rex_atoms(case["tree"]) if not compiles(c, a)]
+            if bad and obs["shape"] != "reject":
+                return ["uncompilable-accepted: %r was accepted as %s although ~%s %r does not compile"
+                        % (untx(case["s_hex"]), obs["shape"], bad[0][0], bad[0][1])]
+            if not bad and obs["shape"] == "reject":
+                return ["rejected-but-should-parse: %r" % untx(case["s_hex"])]
+            if not bad and obs["shape"] != shape_of_tree(case["tree"]):
+                return ["tree: %r parsed as %s, written as %s" % (untx(case["s_hex"]), obs["shape"], shape_of_tree(case["tree"]))]
+            return []
         if case["kind"] != "render":
             # a raw string that parses is a filter too: its call must yield a Boolean on every flow
             return ["raised %s: %r on pool flow #%d (%s)" % (t, untx(case["s_hex"]), i, type(self.pool[i]).__name__)
@@ -1189,6 +1263,10 @@ class Check(PropertyCheck):
             lines.append("rn " + case["conc"])
         if case["kind"] == "render":
             lines.append("pr " + " ".join(tree_tokens(case["tree"])))      # Lean `print` of the tree
+        if case["kind"] in ("render", "uncomp"):
+            # the model of flowfilter.parse itself (`parse compiles`), `compiles` answered by the real re.compile per
+            # (operator, argument) of the rendered tree
+            lines.append(" ".join(["pc", case["s_hex"]] + bad_pairs(case["tree"])))
         return lines
 
     def _mobs_one(self, case, replies):
@@ -1213,6 +1291,8 @@ class Check(PropertyCheck):
             out.append("%s 1 %s" % (tx(body), shape_of_tree(case["tree"])))
         if case["kind"] == "render":
             out.append(tx(canon_print(case["tree"])[0]))
+        if case["kind"] in ("render", "uncomp"):
+            out.append(obs["shape"])          # what flowfilter.parse did: the tree, or "reject" (ValueError)
         return out
 
     def _classify_one(self, case, obs):
